@@ -42,11 +42,11 @@ var paths = map[string]authsim.Set{
 	"/v2/":                     authsim.NewSet(),
 	"/v2/a/manifests/x":        authsim.NewSet("repository:a:pull"),
 	"/v2/a/blobs/uploads/":     authsim.NewSet("repository:a:pull", "repository:a:push"),
-	"/v2/b/manifests/x":        authsim.NewSet("repository:b:pull"),
+	"/v2/catalog/manifests/x":        authsim.NewSet("repository:catalog:pull"),
 	"/v2/_catalog":             authsim.NewSet("registry:catalog:*"),
-	"/v2/a/blobs/mount-from-b": authsim.NewSet("repository:a:pull", "repository:a:push", "repository:b:pull"),
+	"/v2/a/blobs/mount-from-b": authsim.NewSet("repository:a:pull", "repository:a:push", "repository:catalog:pull"),
 }
-var pathList = []string{"/v2/", "/v2/a/manifests/x", "/v2/a/manifests/x", "/v2/a/blobs/uploads/", "/v2/b/manifests/x", "/v2/_catalog", "/v2/a/blobs/mount-from-b"}
+var pathList = []string{"/v2/", "/v2/a/manifests/x", "/v2/a/manifests/x", "/v2/a/blobs/uploads/", "/v2/catalog/manifests/x", "/v2/_catalog", "/v2/a/blobs/mount-from-b"}
 
 var hosts = []string{"r1.example", "r1.example:8443", "r3.example"} // two share a host name and differ in port
 var realms = []string{"t1.example", "t2.example", "t3.example"}
